@@ -108,6 +108,13 @@ def gen_world(rng, profile=None):
             sid = 's9'      # dangling station id
         bases.append(ml.mock_base_from_geoid(f'b{k}', g, station_id=sid, stall_count=rng.randint(0, profile.get('max_stalls', 2)),
                                              membership=rand_membership(rng, fleets)))
+        # a depot shared by all fleets whose plugs belong to ONE of them: the base lets a vehicle in that its station must refuse.
+        # Own stream.
+        rng2 = random.Random(f'shared-depot|{k}|{sid}|{fleets}|{t0}')
+        if len(fleets) >= 2 and sid is not None and sid != 's9' and rng2.random() < 0.35:
+            owner = rng2.choice(sorted(fleets))
+            bases[-1] = dataclasses.replace(bases[-1], membership=Membership.from_tuple(tuple(sorted(fleets))))
+            stations = [dataclasses.replace(x, membership=Membership.single_membership(owner)) if x.id == sid else x for x in stations]
     n_v = profile.get('vehicles', rng.randint(1, 4))
     for k in range(n_v):
         mech = mechs[rng.choice(['bev', 'bev', 'ice'] if not profile.get('bev_only') else ['bev'])]
